@@ -326,7 +326,27 @@ def rule_siblings(run):
     sib.run_rule(run, "F-SIB.fixed", FIXED_PAIRS, floor=12)
 
 
-RULES = [rule_format, rule_ctor, rule_ctor_abs, rule_round, rule_sat, rule_siblings]
+def rule_template_arg(run):
+    from ..rules import eqhash
+    eqhash.run_rule(run, "F-EQ", ["cohdl/std/_fixed.py", "cohdl/std/_template.py"])
+
+
+def rule_replacements(run):
+    from . import c02
+    c02.rule_rows(run)          # run-time fixed-point arithmetic is emitted through the operator replacements (operand order!)
+
+
+def rule_castmatrix(run):
+    from . import c05
+    c05.rule_back(run)          # SFixed/UFixed built from Unsigned/Signed signals are emitted through format_cast
+
+
+def rule_choose_first(run):
+    from . import c18
+    c18.rule_choose_first(run)  # saturation picks its bound with std.choose_first
+
+
+RULES = [rule_format, rule_ctor, rule_ctor_abs, rule_round, rule_sat, rule_siblings, rule_template_arg, rule_replacements, rule_castmatrix, rule_choose_first]
 LEVEL = "other"
 EXPLANATION = (
     "Fixed-point exactness is decided for the format algebra: + - * of both classes are interpreted abstractly over a "
